@@ -10,6 +10,7 @@ fn main() {
         "c02x" => rt.block_on(osv::e2e::c02x::run(&a)),
         "c03" => rt.block_on(osv::e2e::c03::run(&a)),
         "c04" => rt.block_on(osv::e2e::c04::run(&a)),
+        "c05" => rt.block_on(osv::e2e::c05::run(&a)),
         "c06" => rt.block_on(osv::e2e::c06::run(&a)),
         "c07" => rt.block_on(osv::e2e::c07::run(&a)),
         "c09" => rt.block_on(osv::e2e::c09::run(&a)),
